@@ -83,6 +83,10 @@ type Tuple struct {
 	Tax    string   `json:"community_tax"`
 	// Discarded: see space.Discarded
 	Discarded bool `json:"discarded_executions,omitempty"`
+	// Jailed: validator i has just been jailed in x/staking (StakingKeeper.Jail, the call x/slashing and x/evidence make in
+	// their begin blockers) and no validator-set update has taken effect yet, so it is still in the last-commit vote
+	// set.  Its oracle status is untouched; the statement pays by oracle activity and voting power, not by jailing.
+	Jailed [3]bool `json:"jailed_in_staking"`
 }
 
 func (t Tuple) String() string {
@@ -90,6 +94,9 @@ func (t Tuple) String() string {
 		t.Pool, t.Pool2, t.Mint, t.Powers, t.OAct, t.Prop, t.Group.key(), t.OPct, t.TPct, t.Tax)
 	if t.Discarded {
 		s += " +discarded-executions"
+	}
+	if t.Jailed != [3]bool{} {
+		s += fmt.Sprintf(" jailed=%v", t.Jailed)
 	}
 	return s
 }
@@ -286,6 +293,17 @@ func (wk *worker) prepare(t Tuple) sdk.Context {
 		must(err, "minter")
 		mt.Inflation, mt.AnnualProvisions = sdkmath.LegacyZeroDec(), sdkmath.LegacyZeroDec()
 		must(w.App.MintKeeper.Minter.Set(ctx, mt), "minter")
+	}
+	for i, j := range t.Jailed {
+		if j {
+			cons := sdk.ConsAddress(bandtesting.Validators[i].PubKey.Address())
+			must(w.App.StakingKeeper.Jail(ctx, cons), "staking Jail")
+			val, err := w.App.StakingKeeper.GetValidatorByConsAddr(ctx, cons)
+			must(err, "GetValidatorByConsAddr")
+			if !val.IsJailed() || w.App.OracleKeeper.GetValidatorStatus(ctx, bandtesting.Validators[i].ValAddress).IsActive != t.OAct[i] {
+				engine.Fatal3("C14 prepare: validator %d jailed=%v, oracle status changed by jailing", i, val.IsJailed())
+			}
+		}
 	}
 	var votes []abci.VoteInfo
 	for i, p := range t.Powers {
@@ -838,7 +856,7 @@ func (wk *worker) judgeOracle(t Tuple, pre, post *snap, v *verdict) {
 		return
 	}
 	tax := taxRat(t)
-	anyShare, remainderSeen, inactiveZero, propInactiveDust := false, false, false, false
+	anyShare, remainderSeen, inactiveZero, propInactiveDust, jailedPaid := false, false, false, false, false
 	for _, d := range denomsOf(share, dPool, dOut[0], dOut[1], dOut[2]) {
 		O := rat(share.get(d))
 		cp := new(big.Rat).Quo(rat(dPool.get(d)), ratScale) // community pool growth in coins
@@ -860,6 +878,9 @@ func (wk *worker) judgeOracle(t Tuple, pre, post *snap, v *verdict) {
 			}
 			isProp := i == t.Prop
 			short := new(big.Rat).Sub(exact, got) // how much less than the exact proportional share
+			if t.Jailed[i] && t.OAct[i] && exact.Sign() > 0 && got.Sign() > 0 && short.Cmp(eps) <= 0 {
+				jailedPaid = true
+			}
 			switch {
 			case !t.OAct[i] && !isProp:
 				if got.Sign() != 0 {
@@ -910,6 +931,9 @@ func (wk *worker) judgeOracle(t Tuple, pre, post *snap, v *verdict) {
 	}
 	if propInactiveDust {
 		v.saw("oracle:inactive-proposer-gets-only-dust")
+	}
+	if jailedPaid {
+		v.saw("oracle:jailed-active-voter-paid")
 	}
 }
 
